@@ -286,8 +286,8 @@ pub fn replay(args: &[String]) {
         let script: Vec<(String, usize)> = c["script"].as_array().unwrap().iter().map(|a| (a[0].as_str().unwrap().to_string(), a[1].as_u64().unwrap() as usize)).collect();
         let closes = script.iter().any(|a| a.0 == "close");
         let n_notify = script.iter().filter(|a| a.0 == "notify").count();
-        // the source's router key has key information of every length from 1 to 300 octets in turn
-        crate::rtrsession::KEYINFO_LEN.store(1 + (ci * 13) % 300, std::sync::atomic::Ordering::SeqCst);
+        // the source's router key has key information of the lengths from 1 to 1300 octets in turn
+        crate::rtrsession::KEYINFO_LEN.store(1 + (ci * 13) % 1300, std::sync::atomic::Ordering::SeqCst);
         // the source hands out its items in either order (every other case: the items version 0 and 1 cannot carry come first)
         match guarded(|| run_script(&c["queries"], &script, true, ci % 2 == 1)) {
             Err(m) => s.violation("panic", m, c.clone()),
